@@ -4,6 +4,7 @@ import PoseVerif.Model.Concurrent
 import PoseVerif.Model.JS
 import PoseVerif.Driver.Masked
 import PoseVerif.Driver.Collate
+import PoseVerif.Driver.PoseOps
 /-!
 `posedriver`: one JSON request per input line, one JSON answer per output line.
 Runs the executable definitions of the model (the same ones the theorems are about).
@@ -151,6 +152,7 @@ def handle (j : Json) : R Json := do
     | none => pure (Json.mkObj [("ok", Json.bool false), ("class", Json.str clsName)])
   | "masked_prog" => runMaskedProg j
   | "collate" => runCollate j
+  | "body_ops" => runBodyOps j
   | "history" => runHistory j
   | "schedule" => runSchedule j
   | _ => throw s!"unknown op {op}"
